@@ -542,24 +542,30 @@ func extremeSets() {
 	type ps struct {
 		name string
 		h    store.Hasher
+		id   uint
 	}
 	var sets []ps
+	// unusual (but valid) parameter-set ids: every id > 0 is legal, whatever its width
+	for _, id := range []uint{255, 256, 257, 2024, 65535, 65536, 1<<31 - 1, 1 << 31, 1<<32 - 1} {
+		sets = append(sets, ps{fmt.Sprintf("argon2id(id=%d)", id), verifx.CheapParams()[1], id})
+		sets = append(sets, ps{fmt.Sprintf("scrypt(id=%d)", id), verifx.CheapParams()[2], id})
+	}
 	for _, l := range []uint32{4, 5, 64, 100, 512, 1000, 3000, 3036, 3037, 3072, 4096, 8192, 20000, 70000} {
 		h, err := store.NewArgon2IDHasher(&store.Argon2IDParams{Time: 1, Memory: 8, Threads: 1, Length: l})
 		if err == nil {
-			sets = append(sets, ps{fmt.Sprintf("argon2id(length=%d)", l), h})
+			sets = append(sets, ps{fmt.Sprintf("argon2id(length=%d)", l), h, 0})
 		}
 	}
 	for _, th := range []uint8{4, 16, 17, 64, 255} {
 		h, err := store.NewArgon2IDHasher(&store.Argon2IDParams{Time: 1, Memory: 8, Threads: th, Length: 16})
 		if err == nil {
-			sets = append(sets, ps{fmt.Sprintf("argon2id(threads=%d)", th), h})
+			sets = append(sets, ps{fmt.Sprintf("argon2id(threads=%d)", th), h, 0})
 		}
 	}
 	for _, c := range [][3]int{{10, 8, 1}, {4, 16, 2}, {1, 64, 1}, {1, 1, 32}} {
 		h, err := store.NewScryptAuthHasher(&store.ScryptAuthParams{HmacKeyBase64: verifx.HmacKeyB64, Cost: uint(c[0]), R: c[1], P: c[2]})
 		if err == nil {
-			sets = append(sets, ps{fmt.Sprintf("scrypt(cost=%d,r=%d,p=%d)", c[0], c[1], c[2]), h})
+			sets = append(sets, ps{fmt.Sprintf("scrypt(cost=%d,r=%d,p=%d)", c[0], c[1], c[2]), h, 0})
 		}
 	}
 	verifx.Parallel(len(sets), func(w, i int) {
@@ -567,9 +573,13 @@ func extremeSets() {
 		dir := verifx.Scratch("c01ext")
 		defer os.RemoveAll(dir)
 		d := store.NewDir(dir)
-		d.Params[7] = s.h
+		sid := s.id
+		if sid == 0 {
+			sid = 7
+		}
+		d.Params[sid] = s.h
 		d.Params[1] = verifx.CheapParams()[1]
-		d.Default = 7
+		d.Default = sid
 		viol := func(kind, format string, a ...any) {
 			ev.Violation("paramset:"+kind, "["+s.name+"] "+fmt.Sprintf(format, a...), map[string]any{"set": s.name})
 		}
@@ -608,7 +618,7 @@ func extremeSets() {
 		if err := d.UpdateUser("u", "third"); err != nil {
 			viol("update-failed", "UpdateUser under the cheap default: %v", err)
 		}
-		d.Default = 7
+		d.Default = sid
 		if ok, _, upg, _, _ := d.Authenticate("u", "third"); !ok || !upg {
 			viol("verdict", "record of the other set: ok=%v upgradeable=%v", ok, upg)
 		}
